@@ -137,7 +137,7 @@ PROPS = {
     "C11": dict(kind="v1hist", quick_n=600, thorough_n=12000, gen="c11", oracle=c11_oracle, profile=None,
                 title="balance, rank, read cost"),
     "C12": dict(kind="v1hist", quick_n=1200, thorough_n=24000,
-                profile=Profile(p_hold=0.3, dump=0.7, p_prune=0.5, p_noop_version=0.35, p_loadow=0.12, p_delfrom=0.05, p_reopen=0.2,
+                profile=Profile(p_hold=0.3, dump=0.7, p_prune=0.5, p_noop_version=0.35, p_loadow=0.12, p_delfrom=0.1, p_reopen=0.2,
                                 check_all_versions=0.1, p_hash_read=0.0, reads_per_version=(0, 1),
                                 imm_reads_per_version=(0, 1), meta_per_version=(0, 1), nkeys=5,
                                 thrs=[120, 150, 200, 300, 400, 0], caches=[0, 0, 1, 3, 100], empty_out=0.3),
